@@ -818,7 +818,7 @@ def memo_tables(ctx, fn, ps):
                             read_ |= {a_ for a_ in _access_atoms(c, params) if root_(a_) == V('self')}
                 missing = sorted({fmt(a_) for a_ in read_ if (root_(a_)[0] == 'var' or root_(a_) in kroots) and not _determined(a_, katoms)})
             # (the helper objects the table hangs from are not inputs: replacing one of them replaces the table with it)
-            fields = {s_[2] for s_ in T.subterms(w.value) if s_[0] == 'attr' and holder_chain(s_) is not None and s_[2] != m and s_[2] not in holders}
+            fields = {s_[2] for s_ in T.subterms(w.value) if s_[0] == 'attr' and (self_chain(s_) is not None or (H_ != V('self') and s_[1] == H_)) and s_[2] != m and s_[2] not in holders}
             mutable = sorted(f_ for f_ in fields if owner_cls is not None and ctx.M.field_written_outside_init(owner_cls, f_))
             if module_level:
                 mutable = [f_ for f_ in mutable if not _determined(('attr', V('self'), f_), katoms)]        # (a field whose current value is part of the key cannot go stale)
